@@ -79,7 +79,7 @@ theorem expand_keeps_others (verts : List (String × List (String × String))) (
       | none => rfl
       | some v => simp [hf] at this
     · rfl
-  rw [hk, ha, List.append_nil]
+  simp only [hk, ha, List.filter_nil, List.append_nil]
 
 /-- a single VERTEX input naming <vertices vid> becomes one input per <vertices> input, at the
     VERTEX input's offset and set, POSITION read as VERTEX, the other semantics unchanged -/
@@ -87,6 +87,38 @@ theorem expand_vertex (vid : String) (vins : List (String × String)) (off : Nat
     expandInputs [(vid, vins)] [⟨off, "VERTEX", vid, st⟩]
       = vins.map (fun sv => ⟨off, if sv.1 == "POSITION" then "VERTEX" else sv.1, sv.2, st⟩) := by
   simp [expandInputs, expandOne, namesVertices]
+
+/-- a binding of <vertices> that the primitive lists itself as well (the writer lists the inputs it derived from <vertices>) is
+    one input: it occurs exactly once in the expansion -/
+theorem expand_listed_once (vid : String) (sem src : String) (off : Nat) (st : Option String)
+    (hv : vid ≠ src) (hs : sem ≠ "POSITION") (hs' : sem ≠ "VERTEX") :
+    expandInputs [(vid, [("POSITION", "pos"), (sem, src)])] [⟨off, "VERTEX", vid, st⟩, ⟨off, sem, src, st⟩]
+      = [⟨off, sem, src, st⟩, ⟨off, "VERTEX", "pos", st⟩] := by
+  have h1 : (vid == src) = false := by simpa using hv
+  have h2 : (sem == "POSITION") = false := by simpa using hs
+  have h3 : (sem == "VERTEX") = false := by simpa using hs'
+  have n1 : namesVertices [(vid, [("POSITION", "pos"), (sem, src)])] ⟨off, "VERTEX", vid, st⟩ = true := by
+    simp [namesVertices]
+  have n2 : namesVertices [(vid, [("POSITION", "pos"), (sem, src)])] ⟨off, sem, src, st⟩ = false := by
+    simp [namesVertices, h1]
+  have e1 : expandOne [(vid, [("POSITION", "pos"), (sem, src)])] ⟨off, "VERTEX", vid, st⟩
+      = [⟨off, "VERTEX", "pos", st⟩, ⟨off, sem, src, st⟩] := by
+    simp [expandOne, h2]
+    intro h; exact absurd h hs
+  have e2 : expandOne [(vid, [("POSITION", "pos"), (sem, src)])] ⟨off, sem, src, st⟩ = [] := by
+    simp [expandOne, h3]
+  unfold expandInputs
+  simp only [List.filter, n1, n2, Bool.not_true, Bool.not_false, List.flatMap_cons, List.flatMap_nil, e1, e2, List.append_nil]
+  have c1 : ([⟨off, sem, src, st⟩] : List RawInput).contains ⟨off, "VERTEX", "pos", st⟩ = false := by
+    rw [Bool.eq_false_iff]
+    intro hc
+    rw [List.contains_iff_mem] at hc
+    simp only [List.mem_singleton, RawInput.mk.injEq] at hc
+    exact hs' hc.2.1.symm
+  have c2 : ([⟨off, sem, src, st⟩] : List RawInput).contains ⟨off, sem, src, st⟩ = true := by
+    rw [List.contains_iff_mem]; simp
+  have hd : decide ("VERTEX" = sem) = false := by simpa using (Ne.symm hs')
+  simp [hd]
 
 theorem normComponents_spec (comps : List String) :
     (comps = ["U", "V"] → normComponents comps = ["S", "T"]) ∧
